@@ -36,6 +36,19 @@ def hazards(fnode):
                 if not gathered:
                     out.append((n, 'masked_scatter consumes its source in order, one element per selected position; the source `%s` is not gathered by '
                                    'the same mask, so a selected item receives the value computed for an EARLIER item of the batch' % src(source)[:40]))
+        elif name in ('transpose', 'swapaxes', 'swapdims'):
+            args = list(n.args)
+            if d.startswith('torch.'):
+                args = args[1:]
+            lits = []
+            for a in args[:2]:
+                try:
+                    lits.append(ast.literal_eval(a))
+                except (ValueError, SyntaxError):
+                    lits.append(None)
+            if len(lits) == 2 and all(isinstance(x, int) for x in lits) and (lits[0] >= 0) != (lits[1] >= 0):
+                out.append((n, 'swaps an axis counted from the front (%d) with one counted from the back (%d): for inputs with more batch dimensions '
+                               'than the author had in mind the batch axes in between change places' % (max(lits), min(lits))))
         elif name == 'squeeze':
             nargs = len(n.args) - (1 if d.startswith('torch.') else 0)
             if 'dim' not in kws and nargs <= 0:
